@@ -228,7 +228,8 @@ func parseField(fieldDescriptor protoreflect.FieldDescriptor, value string) (pro
 		enum := fieldDescriptor.Enum()
 		v := enum.Values().ByName(protoreflect.Name(value))
 		if v == nil {
-			i, err := strconv.Atoi(value)
+			// enum numbers are int32 values, parsing a wider integer and converting it would wrap around
+			i, err := strconv.ParseInt(value, 10, 32)
 			if err != nil {
 				return protoreflect.Value{}, fmt.Errorf("%q is not a valid value", value)
 			}
